@@ -217,3 +217,49 @@ def std_cfgs(r, n, widths=None, with_depth=False, with_msl=False, sort=None):
             cfg['sort_dict_keys'] = sort
         out.append(cfg)
     return out
+
+
+# ------------------------------------------------- token-level correspondence --
+def etoks_request(sx, cfg):
+    import sys as _s
+    depth = 'none' if cfg.get('depth') is None else str(cfg['depth'])
+    msl = cfg.get('max_seq_len', 1000)
+    msl = _s.maxsize if msl is None else msl
+    return '(etoks %s %d %d %s)' % (depth, msl, 1 if cfg.get('sort_dict_keys', False) else 0, sx)
+
+
+def token_disagreements(cases, limit=3):
+    """The specification side of the denotation theorem against CPython's parser: the canonical
+    rendering of etoks(expr_of v) (one literal per string, no comments, no redundant parentheses)
+    must parse to the same syntax tree as the text pformat produced.  Cases whose output is not an
+    expression at all are left to the property oracle.  -> (number compared, [descriptions])"""
+    reqs = [valgen.uni_request()]
+    idx = []
+    for k, c in enumerate(cases):
+        if c.text.startswith('EXC '):
+            continue
+        reqs.append(etoks_request(c.sx, c.cfg))
+        idx.append(k)
+    res = run_driver(reqs, shards=16)[1:]
+    bad = []
+    n = 0
+    for k, line in zip(idx, res):
+        c = cases[k]
+        if not line.startswith('K'):
+            bad.append('model etoks failed: %s' % line[:80])
+            continue
+        src = ''.join(chr(int(x)) for x in line[1:].split()) if line[1:].strip() else ''
+        try:
+            want = ast.dump(ast.parse('(' + src + '\n)', mode='eval'))
+        except SyntaxError:
+            bad.append('etoks(expr_of v) is not an expression: %r for %s' % (src[:120], json.dumps(jsonable(c.term))[:200]))
+            continue
+        try:
+            got = ast.dump(ast.parse('(' + c.text + '\n)', mode='eval'))
+        except SyntaxError:
+            continue
+        n += 1
+        if got != want and len(bad) < 50:
+            bad.append('ast of the output differs from ast of etoks(expr_of v): %r vs spec %r (cfg %r)' % (
+                c.text[:160], src[:160], c.cfg))
+    return n, bad[:limit] if len(bad) <= limit else bad[:limit] + ['... %d in total' % len(bad)]
